@@ -17,6 +17,8 @@ type Pool struct {
 
 	IncTimeout    time.Duration // incremental attempt of a verdict query before fresh processes are used
 	OneShots      int
+	StringQueries int
+	StringWall    time.Duration
 	FeasTimeout   time.Duration
 	DecideTimeout time.Duration
 	CrossTimeout  time.Duration
@@ -64,6 +66,12 @@ func (pl *Pool) Prelude(lines ...string) {
 
 // Feasible answers whether the conjunction has a model; Unknown is possible.
 func (pl *Pool) Feasible(asserts []*Term, wantModel bool) (Verdict, *Model) {
+	asserts = NormalizeRegex(pl.Bank, asserts)
+	if hasStrings(asserts) {
+		// string queries: fresh z3 processes only (incremental mode is orders of magnitude
+		// slower on regular-language memberships; cvc5 1.0.3 can hang on them)
+		return pl.stringQuery(asserts, wantModel, pl.FeasTimeout*2)
+	}
 	for i, p := range pl.Procs {
 		v, m := p.Check(asserts, pl.FeasTimeout, wantModel)
 		if v != Unknown {
@@ -90,6 +98,17 @@ func (pl *Pool) Feasible(asserts []*Term, wantModel bool) (Verdict, *Model) {
 // Disagreements). Solvers still running after the grace period are killed and
 // restarted lazily.
 func (pl *Pool) Decide(asserts []*Term, wantModel bool) (Verdict, *Model) {
+	asserts = NormalizeRegex(pl.Bank, asserts)
+	if hasStrings(asserts) {
+		pl.Decided++
+		v, m := pl.stringQuery(asserts, wantModel, pl.DecideTimeout)
+		if v == Unknown {
+			pl.Inconclusive++
+		} else {
+			pl.DecidedByOne++
+		}
+		return v, m
+	}
 	pl.Decided++
 	if d := os.Getenv("VERIF_DUMP"); d != "" {
 		em := NewEmitter(pl.Bank)
@@ -225,4 +244,50 @@ loop:
 		pl.Fallbacks++
 	}
 	return first.v, first.m
+}
+
+func hasStrings(asserts []*Term) bool {
+	seen := map[int]bool{}
+	var visit func(t *Term) bool
+	visit = func(t *Term) bool {
+		if seen[t.ID] {
+			return false
+		}
+		seen[t.ID] = true
+		if t.S.K == SString || t.S.K == SRegLan {
+			return true
+		}
+		for _, a := range t.Args {
+			if visit(a) {
+				return true
+			}
+		}
+		return false
+	}
+	for _, a := range asserts {
+		if visit(a) {
+			return true
+		}
+	}
+	return false
+}
+
+// stringQuery decides a query of the string theory with a fresh z3 5.x
+// process (z3 4.8.12 as fall-back); no cross-check exists for these.
+func (pl *Pool) stringQuery(asserts []*Term, wantModel bool, timeout time.Duration) (Verdict, *Model) {
+	pl.StringQueries++
+	var prelude []string
+	if len(pl.Procs) > 0 {
+		prelude = pl.Procs[0].prelude
+	}
+	t0 := time.Now()
+	v, m := OneShot("z3new", pl.Bank, asserts, timeout, wantModel, prelude, nil)
+	pl.StringWall += time.Since(t0)
+	if v != Unknown {
+		return v, m
+	}
+	t0 = time.Now()
+	v, m = OneShot("z3", pl.Bank, asserts, timeout, wantModel, prelude, nil)
+	pl.StringWall += time.Since(t0)
+	return v, m
 }
